@@ -445,6 +445,16 @@ def run_decl(ctx, d, cands, work):
     work.reqs.append(probe); work.meta.append(('mapping', d, text, map_out, dflt))
     ctx.case(['mapping', text], kind='mapping:' + kind)
     ctx.count('mapping-outcome:%s:%s' % (kind, map_out[-1] if map_out[0] == 'error' else 'ok'))
+    if kind == 'int' and d.topts.get('size') in (None, 8, 16, 24, 32, 64) and not (d.topts.get('size') == 64 and d.topts.get('unsigned')):
+        # the regenerated tail of IntConverter.init (Gen/IntBounds.lean) on the same options: converter fields or "raises"
+        t = d.topts
+        work.reqs.append({'op': 'gen_int_init', 'size': t.get('size'), 'unsigned': t.get('unsigned', False), 'min': t.get('min'), 'max': t.get('max')})
+        if map_out[0] == 'ok' and not dflt_bad:
+            c0 = E.x.converters[0]
+            real = {'ok': [c0.min_val, c0.max_val, c0.size, c0.unsigned]}
+        elif map_out[0] == 'error' and not dflt_bad: real = {'error': True}
+        else: real = None
+        work.meta.append(('gen-init', d, text, real, None))
     if map_out[0] == 'error':
         return
     # cross-check the attribute facts the model is given against the real attribute
@@ -474,6 +484,13 @@ def run_decl(ctx, d, cands, work):
         aux = aux_for(d, w)
         chk = check_result(d, w)
         outcomes = {}
+        if kind == 'int' and isinstance(v, int):
+            # the regenerated tail of IntConverter.validate against the real converter method on the same value and converter fields
+            c0 = E.x.converters[0]
+            try: realv = {'ok': c0.validate(v)}
+            except Exception as e: realv = {'error': type(e).__name__}
+            work.reqs.append({'op': 'gen_int_validate', 'val': v, 'min_val': c0.min_val, 'max_val': c0.max_val})
+            work.meta.append(('gen-validate', d, text, realv, v))
         for entry in ENTRIES:
             if entry != 'create' and (v is DEFAULT or base_id is None): continue
             if entry in ('get', 'exists', 'filter') and exp[0] == 'ok' and not storable(d, exp[1]):
@@ -539,6 +556,16 @@ def compare_with_model(ctx, work):
         tag, d, text = meta[0], meta[1], meta[2]
         if 'driver_error' in out:
             ctx.divergence('driver error', [text, req.get('value')], model=out, impl=None); continue
+        if tag in ('gen-init', 'gen-validate'):
+            real = meta[3]
+            ctx.case([tag, text, show(meta[4])], kind='translator-tie:' + tag)
+            if real is None: continue
+            m = {'error': True} if 'error' in out else {'ok': out.get('ok')}
+            r = {'error': True} if 'error' in real else {'ok': real['ok']}
+            ctx.count('gen:%s:%s' % (tag, 'raises' if 'error' in m else 'ok'))
+            if m != r:
+                ctx.divergence('the code regenerated from IntConverter.%s and the real method disagree' % ('init' if tag == 'gen-init' else 'validate'), [text, show(meta[4])], model=out, impl=real)
+            continue
         if tag == 'mapping':
             map_out, dflt = meta[3], meta[4]
             if 'init_error' in out: m = ('error', out['init_error'])
